@@ -416,6 +416,10 @@ void NifFile::SortController(NiTimeController* controller, SortState& sortState)
 }
 
 void NifFile::SortCollision(NiObject* parent, uint32_t parentIndex, SortState& sortState) {
+	// A block that is still being sorted further up the call chain is part of a reference cycle
+	if (!sortState.activeIndices.insert(parentIndex).second)
+		return;
+
 	auto constraint = dynamic_cast<bhkConstraint*>(parent);
 	if (constraint) {
 		for (auto& entityId : constraint->entityRefs) {
@@ -470,6 +474,8 @@ void NifFile::SortCollision(NiObject* parent, uint32_t parentIndex, SortState& s
 				SortCollision(child, id, sortState);
 		}
 	}
+
+	sortState.activeIndices.erase(parentIndex);
 }
 
 void NifFile::SortShape(NiShape* shape, SortState& sortState) {
